@@ -133,6 +133,18 @@ def r09_2(ctx):
     ctx.ok("Kconfig.__call__/loop error propagates to the constructor's caller", f.loc(lc), nontrivial=False)
 
 
+def _trivial(st: ast.stmt) -> bool:
+    """statements without effect on the analysed protocol: pass, docstrings, logging calls"""
+    if isinstance(st, ast.Pass):
+        return True
+    if isinstance(st, ast.Expr):
+        if isinstance(st.value, ast.Constant):
+            return True
+        if isinstance(st.value, ast.Call) and ast.unparse(st.value.func).startswith(("log.", "print")):
+            return True
+    return False
+
+
 def _guards_subset(gs: Set[Tuple[str, bool]], allowed: Set[Tuple[str, bool]]) -> List[Tuple[str, bool]]:
     return sorted(g for g in gs if g not in allowed)
 
@@ -204,7 +216,8 @@ def r09_3(ctx):
                 b = getattr(par, fld, None)
                 if isinstance(b, list) and st in b:
                     body = b
-            nxt = body[body.index(st) + 1] if body and body.index(st) + 1 < len(body) else None
+            rest = [x for x in (body[body.index(st) + 1:] if body else []) if not _trivial(x)]
+            nxt = rest[0] if rest else None
             ok = (isinstance(nxt, ast.If) and ast.unparse(nxt.test) == var and nxt.body and isinstance(nxt.body[-1], ast.Return)
                   and isinstance(nxt.body[-1].value, ast.Call) and ast.unparse(nxt.body[-1].value.func) == "_found_dep_loop"
                   and [ast.unparse(a) for a in nxt.body[-1].value.args] == [var, item])
